@@ -130,6 +130,16 @@ FragsF == << [name |-> "F", on |-> "Q"] >>
 
 \* outcome tables
 OT_AllVal == << <<>> >>
+\* C20: runtime types x deferred values at several depths (resolvers below a thunk must still be told
+\* their own path, source and parent type)
+OT_C20 ==
+  << <<>>,
+     << [t |-> "Q", f |-> "i", src |-> "*", o |-> [k |-> "val", rt |-> "B"]],
+        [t |-> "Q", f |-> "u", src |-> "*", o |-> [k |-> "val", rt |-> "B"]],
+        [t |-> "Q", f |-> "il", src |-> "*", o |-> [k |-> "val", rts |-> <<"B", "A">>]] >>,
+     << [t |-> "Q", f |-> "l", src |-> "*", o |-> [k |-> "thunk"]], [t |-> "Q", f |-> "ll", src |-> "*", o |-> [k |-> "thunk"]],
+        [t |-> "O", f |-> "z", src |-> "*", o |-> [k |-> "thunk"]], [t |-> "Q", f |-> "il", src |-> "*", o |-> [k |-> "thunk", rts |-> <<"A", "B">>]],
+        [t |-> "O", f |-> "x", src |-> "r.l#0", o |-> [k |-> "thunk"]] >> >>
 \* immediate failures at several depths (C18: error paths and locations)
 OT_Faults ==
   << << [t |-> "O", f |-> "x", src |-> "*", o |-> [k |-> "err"]] >>,
